@@ -721,7 +721,10 @@ class ExprMixin(object):
             return [(BoundMethod(recv, name), st)]
         if isinstance(r, ClassV):
             fi = r.module.find_method(r.name, name)
-            if fi is not None: return [(Closure(fi.node, fi.module, 0, cls=r.name, qual=fi.qualname), st)]
+            if fi is not None:
+                if any(isinstance(d_, ast.Name) and d_.id == 'classmethod' for d_ in fi.node.decorator_list):
+                    return [(Closure(fi.node, fi.module, 0, self_val=r, cls=r.name, qual=fi.qualname), st)]      # C.m of a classmethod: bound to the class
+                return [(Closure(fi.node, fi.module, 0, cls=r.name, qual=fi.qualname), st)]
             a = r.module.class_attr(r.name, name)
             if a is not None: return self.ev(a, st)
         if isinstance(r, Builtin) and name == '__name__': return [(PyStr(r.name), st)]
@@ -1029,6 +1032,10 @@ class SymKeys(V):
 
 class SymValues(V):
     """d.values() of a symbolic dict"""
+    def __init__(self, d): self.d = d
+
+class SymItems(V):
+    """d.items() of a symbolic dict"""
     def __init__(self, d): self.d = d
 
 def view_source_fn(view_cls, src_cls):
@@ -1409,6 +1416,12 @@ class StmtMixin(object):
                 has_ = src.has
                 src = SeqV(src.order, src.kty)          # iterating a dict yields its keys in insertion order (A4)
                 src.member_of = has_                    # every key listed is a key of the dict (instances added where elements are taken)
+            items_of = None
+            if isinstance(src, SymItems):
+                # iterating d.items(): the (key, value) pairs along the key listing (insertion order when tracked, else unspecified)
+                items_of = src.d
+                if items_of.order is not None: src = SeqV(items_of.order, items_of.kty); src.member_of = items_of.has
+                else: src = SymSet(items_of.has, items_of.kty)
             if isinstance(src, SymSet):
                 # iterating a set: each member once, in an order nothing may depend on (an unspecified listing of the members)
                 lst = keys_list_fn(src.kty)(src.has)
@@ -1423,9 +1436,12 @@ class StmtMixin(object):
                 src = SeqV(lst, src.kty)
             if isinstance(src, SeqV):
                 lo, hi = z3.IntVal(0), z3.Length(src.z)
-                def elem(k, st_, src=src):
+                def elem(k, st_, src=src, items_of=items_of):
                     if getattr(src, 'member_of', None) is not None:
                         st_.pc.append(z3.Select(src.member_of, src.z[k]))     # A4 instance: sorted(S)[k] is a member of S
+                    if items_of is not None:
+                        st_.pc.append(z3.Select(items_of.has, src.z[k]))
+                        return Tup([wrap(src.elem, src.z[k]), wrap(items_of.vty, z3.Select(items_of.get, src.z[k]))])
                     return wrap(src.elem, src.z[k])
             else:
                 raise Unsupported('iteration over %r' % (src,))
@@ -2037,6 +2053,11 @@ class CallMixin(object):
         if isinstance(r, PyStr):
             if name == 'format': return [(self.format_brace(r.s, args, kw, st), st)]
             if name == 'join': return [(self.join(r, d[0], st), st)]
+        if isinstance(recv, InnerRef) and isinstance(r, SeqV) and name == 'append' and len(args) == 1:
+            o = st.cells[recv.outer.id]
+            x = self.elem_term(d[0], r.elem, st)
+            st.cells[recv.outer.id] = SymDict(o.has, z3.Store(o.get, recv.key, z3.Concat(r.z, z3.Unit(x))), o.kty, o.vty, order=o.order)
+            return [(NONE, st)]
         if isinstance(r, (PyList, SeqV)) and isinstance(recv, Ref):
             if name == 'append':
                 v = d[0]
@@ -2119,6 +2140,13 @@ class CallMixin(object):
                 ng = z3.Store(r.get, k, z3.If(z3.Select(r.has, k), z3.Select(r.get, k), empty))
                 st.cells[recv.id] = SymDict(z3.Store(r.has, k, z3.BoolVal(True)), ng, r.kty, r.vty, order=_order_after_insert(r, k, st))
                 return [(InnerRef(recv, k), st)]
+            if r.vty.kind == 'List' and isinstance(dflt, PyList) and not dflt.items:
+                # d.setdefault(k, []): an alias of the list stored under k (appends go to the dictionary's cell)
+                v0 = fresh(r.vty.sort(), 'dflt')       # (named: an `ite` term cannot serve in a pattern)
+                st.pc.append(v0 == z3.If(z3.Select(r.has, k), z3.Select(r.get, k), z3.Empty(r.vty.sort())))
+                ng = z3.Store(r.get, k, v0)
+                st.cells[recv.id] = SymDict(z3.Store(r.has, k, z3.BoolVal(True)), ng, r.kty, r.vty, order=_order_after_insert(r, k, st))
+                return [(InnerRef(recv, k), st)]
             dz = unwrap(dflt) if not isinstance(dflt, FnV) else dflt.z
             if r.vty.kind == 'Fn': dz = self.as_fn(args[1], st)
             ng = z3.Store(r.get, k, z3.If(z3.Select(r.has, k), z3.Select(r.get, k), dz))
@@ -2128,6 +2156,8 @@ class CallMixin(object):
             return [(SymKeys(r), st)]
         if isinstance(r, SymDict) and name == 'values' and not args:
             return [(SymValues(r), st)]
+        if isinstance(r, SymDict) and name == 'items' and not args:
+            return [(SymItems(r), st)]
         if isinstance(r, SymDict):
             if name == 'get':
                 k = self.key_term(args[0], st)
@@ -2261,6 +2291,11 @@ class CallMixin(object):
         return True
 
     def call_closure(self, f, args, kw, st, node):
+        if f.qual and f.cls and isinstance(f.self_val, ClassV):
+            # a classmethod reached through its class: modular, under its contract, when one is registered
+            fi_ = f.module.find_method(f.cls, f.node.name)
+            c_ = self.reg.get(fi_.file, fi_.qualname) if fi_ is not None else None
+            if c_ is not None and not c_.inline: return self.call_contract(c_, fi_, args, kw, st, node)
         saved = getattr(self, '_closure_frames', None)
         self._closure_frames = (saved or []) + [f.depth]
         try:
@@ -2451,6 +2486,9 @@ class CallMixin(object):
             return outs_
         st.pc += c.ensures(ns_post, ns_pre, res_z)
         if c.names_result is not None: st.pc += c.names_result(ns_post, res_z)
+        if getattr(c, 'names_self', None) is not None:
+            st.pc += c.names_self(ns_post, ns_pre)
+            self.reg.assume('ghost observers of %s objects name the constructor arguments (fresh uninterpreted functions of the new object: conservative)' % c.qualname.split('.')[0])
         return [(res_v, st)]
 
     def coerce(self, v, ty, st, nm):
@@ -2669,6 +2707,8 @@ class Executor(Exec, ExprMixin, StmtMixin, CallMixin):
 
     def make_input(self, nm, ty, st):
         k = ty.kind
+        if k == 'Any' and nm == 'cls' and self.fi.cls and any(isinstance(d_, ast.Name) and d_.id == 'classmethod' for d_ in self.fi.node.decorator_list):
+            return ClassV(self.module, self.fi.cls)      # the class a classmethod is defined in (subclasses that override what it calls are outside the handled subset)
         if k == 'Doc': return st.new_cell(DocObj(z3.Const(nm + '0', Doc)))
         if k == 'MList':
             return st.new_cell(SeqV(z3.Const(nm, z3.SeqSort(ty.args[0].sort())), ty.args[0]))
